@@ -44,6 +44,7 @@ type stStep struct {
 	Name string `json:"name"`
 	C    string `json:"c"`
 	T    string `json:"t"`
+	N    int    `json:"n"` // body length of the published frame (0 = default pool)
 }
 
 type stScenario struct {
@@ -185,7 +186,7 @@ func (timeoutErr) Temporary() bool { return true }
 
 type gState struct {
 	writersQuiet bool
-	pubBlocked   bool // a goroutine inside Group.OnReadRtmpAvMsg is parked on a channel / lock
+	pubBlocked   bool // the goroutine running the watched call into lal is parked on a channel / lock
 	pubSeen      bool
 }
 
@@ -222,7 +223,7 @@ func goroutineStates() gState {
 				st.writersQuiet = false
 			}
 		}
-		if strings.Contains(blk, "logic.(*Group).OnReadRtmpAvMsg") {
+		if strings.Contains(blk, "lalverif/drv.watchedCall") {
 			st.pubSeen = true
 			if strings.HasPrefix(state, "chan send") || strings.HasPrefix(state, "chan receive") ||
 				strings.HasPrefix(state, "select") || strings.HasPrefix(state, "sync.Mutex.Lock") ||
@@ -233,6 +234,12 @@ func goroutineStates() gState {
 	}
 	return st
 }
+
+// watchedCall is the frame by which the goroutine that runs a call into lal is recognised in a
+// goroutine dump.
+//
+//go:noinline
+func watchedCall(fn func()) { fn() }
 
 // quiesce waits until every connection write loop is parked (idle or inside the gate).
 func quiesce() error {
@@ -607,28 +614,15 @@ func runStallScenario(sc *stScenario, seed int64, skipBlocked bool) (evs []M, sl
 		m["infl"], m["wire"], m["closed"] = infl, wire, closed
 		emit(m)
 	}
-	publish := func(t string) (blocked bool, callUs, latUs int64, e error) {
-		id := nextId
-		nextId++
-		m := &AMsg{Id: id, T: t, Hv: 1, Ha: 2}
-		if (proto == "ts" || proto == "wsts") && t == "aud" {
-			m.T = "inter"
-		}
-		n := 700 + (id*37+int(seed)*11+sc.Sc*5)%300
-		if id%4 == 0 {
-			n = 4000 + (id*13+int(seed)*7+sc.Sc*3)%3000 // several RTMP chunks
-		}
-		msg := BuildMsg(m, n, uint32(40*id))
-		s := &stSent{msg: msg.Clone(), woSdf: msg.Payload, body: n}
-		if m.T == "meta" && id%2 == 1 {
-			s.woSdf = msg.Payload[16:]
-		}
-		sent[id] = s
+	// watched runs one call into lal on its own goroutine and waits until it has returned and the write
+	// loops are quiescent, or until the call is parked for good: its goroutine waits on a channel or a
+	// lock while every write loop is parked as well, so nothing in the process can wake it (no timer).
+	watched := func(fn func()) (blocked bool, callUs, latUs int64, e error) {
 		done := make(chan struct{})
 		t0 := time.Now()
 		var t1 time.Time
 		go func() {
-			g.OnReadRtmpAvMsg(msg)
+			watchedCall(fn)
 			t1 = time.Now()
 			close(done)
 		}()
@@ -669,7 +663,7 @@ func runStallScenario(sc *stScenario, seed int64, skipBlocked bool) (evs []M, sl
 			select {
 			case <-done:
 			case <-time.After(20 * time.Second):
-				return true, 0, 0, fmt.Errorf("publish stayed blocked after all gates were opened")
+				return true, 0, 0, fmt.Errorf("call stayed blocked after all gates were opened")
 			}
 			return true, time.Since(t0).Microseconds(), 0, nil
 		}
@@ -687,18 +681,61 @@ func runStallScenario(sc *stScenario, seed int64, skipBlocked bool) (evs []M, sl
 		return
 	}
 
+	publish := func(t string, sz int) (blocked bool, callUs, latUs int64, e error) {
+		id := nextId
+		nextId++
+		m := &AMsg{Id: id, T: t, Hv: 1, Ha: 2}
+		if (proto == "ts" || proto == "wsts") && t == "aud" {
+			m.T = "inter"
+		}
+		n := 700 + (id*37+int(seed)*11+sc.Sc*5)%300
+		if id%4 == 0 {
+			n = 4000 + (id*13+int(seed)*7+sc.Sc*3)%3000 // several RTMP chunks
+		}
+		if sz > 0 {
+			n = sz + (id*3)%50 // units well above any piece size a session might cut its writes into
+		}
+		msg := BuildMsg(m, n, uint32(40*id))
+		s := &stSent{msg: msg.Clone(), woSdf: msg.Payload, body: n}
+		if m.T == "meta" && id%2 == 1 {
+			s.woSdf = msg.Payload[16:]
+		}
+		sent[id] = s
+		return watched(func() { g.OnReadRtmpAvMsg(msg) })
+	}
+
 	for _, st := range sc.Steps {
 		switch st.Name {
 		case "PubArrive":
 			pub = rtmp.NewServerSession(nullObserver{}, NewMemConn("pub"))
-			e := g.AddRtmpPubSession(pub)
-			ok := e == nil
-			for _, t := range []string{"vsh", "ash"} {
-				if b, _, _, e2 := publish(t); e2 != nil || b {
-					ok = false
-				}
+			ok := false
+			blocked, callUs, _, e := watched(func() { ok = g.AddRtmpPubSession(pub) == nil })
+			if e != nil {
+				err = e
+				return
 			}
-			emit(M{"ev": "PubArrive", "ok": ok})
+			snap(M{"ev": "PubArrive", "ok": ok, "blocked": blocked, "callUs": callUs})
+			if blocked {
+				blockedSeen = true
+				return
+			}
+		case "PubLeave":
+			if pub == nil {
+				continue
+			}
+			p0 := pub
+			pub = nil
+			blocked, callUs, _, e := watched(func() { g.DelRtmpPubSession(p0) })
+			if e != nil {
+				err = e
+				return
+			}
+			p0.Dispose()
+			snap(M{"ev": "PubLeave", "blocked": blocked, "callUs": callUs})
+			if blocked {
+				blockedSeen = true
+				return
+			}
 		case "Join":
 			for _, n := range stNames {
 				c := &stCons{name: n, conn: newGateConn(n)}
@@ -737,7 +774,7 @@ func runStallScenario(sc *stScenario, seed int64, skipBlocked bool) (evs []M, sl
 			if t == "" {
 				t = "key"
 			}
-			blocked, callUs, latUs, e := publish(t)
+			blocked, callUs, latUs, e := publish(t, st.N)
 			if e != nil {
 				err = e
 				return
@@ -796,11 +833,17 @@ func runStallScenario(sc *stScenario, seed int64, skipBlocked bool) (evs []M, sl
 			snap(M{"ev": "Fire", "c": st.C, "had": had, "armed": armed})
 		case "Sweep":
 			tick++
-			g.Tick(tick)
-			if err = quiesce(); err != nil {
+			tk := tick
+			blocked, callUs, _, e := watched(func() { g.Tick(tk) })
+			if e != nil {
+				err = e
 				return
 			}
-			snap(M{"ev": "Sweep"})
+			snap(M{"ev": "Sweep", "blocked": blocked, "callUs": callUs})
+			if blocked {
+				blockedSeen = true
+				return
+			}
 		}
 	}
 	// drain: every consumer that is still connected reads everything that is queued for it
